@@ -1,8 +1,237 @@
+import DeapModel.Core.Bench
+import DeapModel.Core.BenchMO
+import DeapModel.Core.BenchBinary
+import DeapModel.Core.BenchTools
+import DeapModel.Core.MovingPeaks
 import Driver.Proto
-/-! Protocol handler for C20 (stub until the model is built). -/
+/-!
+Protocol handler for C20 (benchmark functions).  Floats travel as bit patterns (`f:<UInt64>`).
+
+  f <name> <xs>                      single-objective / gp function  → value | error
+  shekel <xs> <a;rows> <c>           → value | error
+  mo <name> <xs> [M] [alpha]         multi-objective → comma list | error
+  bin <name> <bits> [order]          binary functions → integer | error
+  b2f <min> <max> <nbits> <bits>     decoded list (min/max exact ratios; printed as doubles) | error
+  translate <vector> <xs>            argument handed to the wrapped function
+  scale <factor> <xs>                … | error
+  rotate <Minv;rows> <xs>            … | error
+  noise <rep0|rep1|each:bits> <result> <draws>   → noisy result + number of unused draws | bad-tape
+  bound <kind> <xs>                  → xs
+  mpcall <basis|none> <xs> {<fn> <pos> <h> <w>}*  → value | error
+  mpchange …                         see `mpChange`
+-/
 namespace DriverC20
+open Proto Bench BenchBin BenchTools MovingPeaks
+
+def fl (s : String) : Option (List Float) := parseList parseFloat s
+def fl2 (s : String) : Option (List (List Float)) := parseList2 parseFloat s
+def showFl (l : List Float) : String := showList showFloat l
+def showO (o : Option Float) : String := match o with | some v => showFloat v | none => "error"
+def showOL (o : Option (List Float)) : String := match o with | some v => showFl v | none => "error"
+
+def parseBits (s : String) : Option (List Bool) :=
+  if s = "-" then some [] else s.toList.mapM fun c => if c = '1' then some true else if c = '0' then some false else none
+
+def single (name : String) (x : List Float) : Option (Option Float) :=
+  match name with
+  | "plane" => some (plane x)
+  | "sphere" => some (some (sphere x))
+  | "cigar" => some (cigar x)
+  | "rosenbrock" => some (some (rosenbrock x))
+  | "h1" => some (h1 x)
+  | "ackley" => some (ackley x)
+  | "bohachevsky" => some (some (bohachevsky x))
+  | "griewank" => some (some (griewank x))
+  | "rastrigin" => some (some (rastrigin x))
+  | "rastrigin_scaled" => some (rastriginScaled x)
+  | "rastrigin_skew" => some (some (rastriginSkew x))
+  | "schaffer" => some (some (schaffer x))
+  | "schwefel" => some (some (schwefel x))
+  | "himmelblau" => some (himmelblau x)
+  | "kotanchek" => some (kotanchek x)
+  | "salustowicz_1d" => some (salustowicz1d x)
+  | "salustowicz_2d" => some (salustowicz2d x)
+  | "unwrapped_ball" => some (some (unwrappedBall x))
+  | "rational_polynomial" => some (rationalPolynomial x)
+  | "sin_cos" => some (sinCos x)
+  | "ripple" => some (ripple x)
+  | "rational_polynomial2" => some (rationalPolynomial2 x)
+  | _ => none
+
+def multi (name : String) (x : List Float) (rest : List String) : Option (Option (List Float)) :=
+  match name, rest with
+  | "kursawe", [] => some (some (kursawe x))
+  | "schaffer_mo", [] => some (schafferMo x)
+  | "zdt1", [] => some (zdt1 x)
+  | "zdt2", [] => some (zdt2 x)
+  | "zdt3", [] => some (zdt3 x)
+  | "zdt4", [] => some (zdt4 x)
+  | "zdt6", [] => some (zdt6 x)
+  | "fonseca", [] => some (some (fonseca x))
+  | "poloni", [] => some (poloni x)
+  | "dent", [lam] => (parseFloat lam).map fun l => dent l x
+  | "dtlz1", [m] => (parseNat m).map fun M => dtlz1 x M
+  | "dtlz2", [m] => (parseNat m).map fun M => dtlz2 x M
+  | "dtlz3", [m] => (parseNat m).map fun M => dtlz3 x M
+  | "dtlz4", [m, a] => do let M ← parseNat m; let al ← parseFloat a; pure (dtlz4 x M al)
+  | "dtlz5", [m] => (parseNat m).map fun M => dtlz5 x M
+  | "dtlz6", [m] => (parseNat m).map fun M => dtlz6 x M
+  | "dtlz7", [m] => (parseNat m).map fun M => dtlz7 x M
+  | _, _ => none
+
+def showOI (o : Option Int) : String := match o with | some v => toString v | none => "error"
+
+def binary (name : String) (b : List Bool) (rest : List String) : Option String :=
+  match name, rest with
+  | "trap", [] => some (toString (trap b))
+  | "inv_trap", [] => some (toString (invTrap b))
+  | "chuang_f1", [] => some (showOI (chuangF1 b))
+  | "chuang_f2", [] => some (showOI (chuangF2 b))
+  | "chuang_f3", [] => some (showOI (chuangF3 b))
+  | "royal_road1", [o] => (parseNat o).map fun k => showOpt toString (royalRoad1 b k)
+  | "royal_road2", [o] => (parseNat o).map fun k => showOpt toString (royalRoad2 b k)
+  | _, _ => none
+
+def ratToFloat (q : Rat) : Float := Float.ofInt q.num / Float.ofNat q.den
+
+def parseSpec (s : String) : Option NoiseSpec :=
+  if s = "rep0" then some (.rep false) else if s = "rep1" then some (.rep true)
+  else if s.startsWith "each:" then (parseBits (s.drop 5).toString).map NoiseSpec.each else none
+
+def parseFn (s : String) : Option PFunc :=
+  if s = "c" then some .cone else if s = "s" then some .sphere else if s = "f" then some .function1 else none
+
+def showFn : PFunc → String
+  | .cone => "c" | .sphere => "s" | .function1 => "f"
+
+/-- `<fn> <pos> <h> <w>` groups -/
+def parsePeaks4 : List String → Option (List (Peak Float))
+  | [] => some []
+  | fn :: pos :: h :: w :: rest => do
+    let f ← parseFn fn; let p ← fl pos; let hh ← parseFloat h; let ww ← parseFloat w
+    let r ← parsePeaks4 rest
+    pure (⟨f, p, hh, ww, []⟩ :: r)
+  | _ => none
+
+/-- `n` groups `<fn> <pos> <h> <w> <last>`; returns the remaining tokens -/
+def parsePeaks5 : Nat → List String → Option (List (Peak Float) × List String)
+  | 0, rest => some ([], rest)
+  | n + 1, fn :: pos :: h :: w :: last :: rest => do
+    let f ← parseFn fn; let p ← fl pos; let hh ← parseFloat h; let ww ← parseFloat w; let l ← fl last
+    let (r, rest') ← parsePeaks5 n rest
+    pure (⟨f, p, hh, ww, l⟩ :: r, rest')
+  | _, _ => none
+
+def parseDraw (s : String) : Option (Draw Float) :=
+  if s.startsWith "r=" then (parseFloat (s.drop 2).toString).map Draw.random
+  else if s.startsWith "u=" then (parseFloat (s.drop 2).toString).map Draw.uniform
+  else if s.startsWith "g=" then (parseFloat (s.drop 2).toString).map Draw.gauss
+  else if s.startsWith "i=" then (parseNat (s.drop 2).toString).map Draw.randrange
+  else if s.startsWith "c=" then (parseNat (s.drop 2).toString).map Draw.choice
+  else none
+
+def parseLimits (s : String) : Option (Option (Int × Int)) :=
+  if s = "none" then some none else
+    match s.splitOn "," with
+    | [a, b] => do let x ← parseInt a; let y ← parseInt b; pure (some (x, y))
+    | _ => none
+
+def parseOptFloat (s : String) : Option (Option Float) :=
+  if s = "none" then some none else (parseFloat s).map some
+
+def showPeak (p : Peak Float) : String :=
+  showFn p.fn ++ "," ++ showFloat p.height ++ "," ++ showFloat p.width ++ "," ++ showFl p.pos ++ "," ++ showFl p.last
+
+/-- run `k` changes, after each one report `<npeaks>,<call value at x>` -/
+def mpSteps (cfg : Config Float) (basis : Option Float) (x : List Float) :
+    Nat → List (Peak Float) → Tape Float → List String → Option (List String × List (Peak Float) × Tape Float)
+  | 0, peaks, t, acc => some (acc.reverse, peaks, t)
+  | k + 1, peaks, t, acc =>
+    match changePeaks cfg peaks t with
+    | none => none
+    | some (peaks1, t1) =>
+      let v := match call peaks1 basis x with | some v => showFloat v | none => "none"
+      mpSteps cfg basis x k peaks1 t1 ((toString peaks1.length ++ "," ++ v) :: acc)
+
+/-- `mpchange <k> <dim> <limits> <sev> <pool> <minC> <maxC> <minH> <maxH> <minW> <maxW> <lambda> <move>
+<hsev> <wsev> <basis> <x> <npeaks> {<fn> <pos> <h> <w> <last>}* {<draw>}*` -/
+def mpChange (toks : List String) : String :=
+  match toks with
+  | k :: dim :: lim :: sev :: pool :: minC :: maxC :: minH :: maxH :: minW :: maxW :: lam :: move ::
+      hsev :: wsev :: basis :: x :: np :: rest =>
+    match (do
+      let k ← parseNat k; let dim ← parseNat dim; let lim ← parseLimits lim; let sev ← parseFloat sev
+      let pool ← pool.toList.mapM (fun c => parseFn c.toString)
+      let minC ← parseFloat minC; let maxC ← parseFloat maxC; let minH ← parseFloat minH
+      let maxH ← parseFloat maxH; let minW ← parseFloat minW; let maxW ← parseFloat maxW
+      let lam ← parseFloat lam; let move ← parseFloat move; let hsev ← parseFloat hsev
+      let wsev ← parseFloat wsev; let basis ← parseOptFloat basis; let x ← fl x; let np ← parseNat np
+      let (peaks, rest') ← parsePeaks5 np rest
+      let tape ← rest'.mapM parseDraw
+      let cfg : Config Float := ⟨dim, lim, sev, pool, minC, maxC, minH, maxH, minW, maxW, lam, move, hsev, wsev,
+        pyRoundFloat⟩
+      pure (k, cfg, basis, x, peaks, tape)) with
+    | none => "bad-op"
+    | some (k, cfg, basis, x, peaks, tape) =>
+      match mpSteps cfg basis x k peaks tape [] with
+      | none => "bad-tape"
+      | some (steps, peaks', t') =>
+        (if steps.isEmpty then "-" else ";".intercalate steps) ++ " " ++
+        (if peaks'.isEmpty then "-" else ";".intercalate (peaks'.map showPeak)) ++ " " ++ toString t'.length
+  | _ => "bad-op"
 
 def handle : List String → String
+  | ["f", name, xs] =>
+    match (do let x ← fl xs; single name x) with
+    | some r => showO r
+    | none => "bad-op"
+  | ["shekel", xs, a, c] =>
+    match (do let x ← fl xs; let a ← fl2 a; let c ← fl c; pure (shekel x a c)) with
+    | some r => showO r
+    | none => "bad-op"
+  | "mo" :: name :: xs :: rest =>
+    match (do let x ← fl xs; multi name x rest) with
+    | some r => showOL r
+    | none => "bad-op"
+  | "bin" :: name :: bits :: rest =>
+    match (do let b ← parseBits bits; binary name b rest) with
+    | some r => r
+    | none => "bad-op"
+  | ["b2f", mn, mx, nb, bits] =>
+    match (do let a ← parseRat mn; let b ← parseRat mx; let n ← parseNat nb; let x ← parseBits bits
+              pure (bin2float a b n x)) with
+    | some (some r) => showFl (r.map ratToFloat) ++ " " ++ showList showRat r
+    | some none => "error"
+    | none => "bad-op"
+  | ["translate", v, xs] =>
+    match (do let v ← fl v; let x ← fl xs; pure (translateArg v x)) with
+    | some r => showFl r
+    | none => "bad-op"
+  | ["scale", v, xs] =>
+    match (do let v ← fl v; let x ← fl xs; pure (scaleArg v x)) with
+    | some r => showOL r
+    | none => "bad-op"
+  | ["rotate", m, xs] =>
+    match (do let m ← fl2 m; let x ← fl xs; pure (matVec m x)) with
+    | some r => showOL r
+    | none => "bad-op"
+  | ["noise", spec, res, draws] =>
+    match (do let s ← parseSpec spec; let r ← fl res; let d ← fl draws; pure (noise s r d)) with
+    | some (some (out, rest)) => showFl out ++ " " ++ toString rest.length
+    | some none => "bad-tape"
+    | none => "bad-op"
+  | ["bound", kind, xs] =>
+    match (do
+      let k ← (if kind = "mirror" then some BoundKind.mirror else if kind = "wrap" then some BoundKind.wrap
+               else if kind = "clip" then some BoundKind.clip else none)
+      let x ← fl2 xs; pure (bound k x)) with
+    | some r => showList2 showFloat r
+    | none => "bad-op"
+  | "mpcall" :: basis :: xs :: rest =>
+    match (do let b ← parseOptFloat basis; let x ← fl xs; let p ← parsePeaks4 rest; pure (call p b x)) with
+    | some r => showO r
+    | none => "bad-op"
+  | "mpchange" :: rest => mpChange rest
   | _ => "bad-op"
 
 end DriverC20
